@@ -89,7 +89,7 @@ def traversal_guards(prog, body, blk):
 
 PATH_BUILD_OK = (r"(fmt::format|Arguments::new\w*|Arguments::<'a>::new\w*|PathBuf as std::convert::From<[^>]*>>::from|Path::new|Path::join|PathBuf::push|"
                  r"Path::to_path_buf|String as std::convert::From<[^>]*>>::from|::to_string|::to_owned|::clone|::deref|::as_ref|::as_str|::as_path|::borrow|::into|"
-                 r"trim_start_matches|Argument::<'_>::new_display|Argument::new_display|hint::must_use)$")
+                 r"trim_start_matches|Argument::<'_>::new_display|Argument::new_display|hint::must_use|hv::concat)$")
 
 
 def transformed_after_test(d, guard_key):
@@ -112,6 +112,32 @@ def transformed_after_test(d, guard_key):
                 walk(y, trail)
     walk(d, [])
     return best[0]
+
+
+def expand_builders(prog, b, d):
+    """A path assembled by mutation — `let mut p = String::with_capacity(..); p.push_str(dir); p.push('/'); p.push_str(rel)` — is described
+    by what was appended to it (core.describe only sees the constructor): the constructor call is replaced by
+    ('call', 'hv::concat', [appended pieces])."""
+    from .c09 import mutations_of
+
+    def walk(y):
+        if isinstance(y, tuple):
+            if y and y[0] == "call" and core.re.search(r"string::String::(with_capacity|new)$|path::PathBuf::(new|with_capacity)$", y[1]) and len(y) > 3 and isinstance(y[3], int):
+                t = b.term(y[3])
+                if t and t.get("dest") is not None and not t["dest"]["p"]:
+                    pieces = []
+                    for m in mutations_of(prog, b, t["dest"]["l"]):
+                        if m[0] == "call" and core.re.search(r"::(push_str|push|extend|add_assign|insert_str|insert|set_extension|set_file_name)$", m[1] or ""):
+                            pieces.append(describe(prog, b, m[3]["args"][-1]))
+                        elif m[0] == "call":
+                            pieces.append(("call", m[1] or "?", [], m[2]))
+                    if pieces:
+                        return ("call", "hv::concat", pieces, y[3])
+            return tuple(walk(z) for z in y)
+        if isinstance(y, list):
+            return [walk(z) for z in y]
+        return y
+    return walk(d)
 
 
 def count_calls(d, suffix):
@@ -143,7 +169,7 @@ def analyse_sinks(chk, prog, cfg):
                 continue
             n_tainted += 1
             via_tfp = any(p.kind == "call" and p.name().endswith("route::try_find_path") for p in prods)
-            d = describe(prog, b, arg)
+            d = expand_builders(prog, b, describe(prog, b, arg))
             if b.kind in ("closure", "coroutine"):
                 d = resolve_upvars(prog, b, d)
             guards = traversal_guards(prog, b, blk)
